@@ -298,7 +298,8 @@ func drawSingleProgram(t *rapid.T) (string, []string) {
 var pkgNames = []string{"pa", "pb", "pc", "pd", "pe", "alpha", "zeta", "m1", "kilo", "q"}
 
 type gpkg struct {
-	name    string
+	name    string   // package name = last component of the import path
+	path    string   // import path (directory below the package root)
 	imports []int    // indices of lower packages
 	fn      string   // exported function name
 	vars    []string // package-level scalar variables
@@ -319,11 +320,46 @@ func drawMultiProgram(t *rapid.T) (string, []File, []string) {
 		tags["same-var-names"] = true
 	}
 
+	// Same-named packages: one time in four two packages share their name
+	// (the last component of the import path) and live in different
+	// directories; no importer sees both.
+	twinA, twinB := -1, -1
+	if npk >= 3 && rapid.IntRange(0, 3).Draw(t, "twins") == 0 {
+		ab := rapid.Permutation(seq(npk)).Draw(t, "twinpair")[:2]
+		sortInts(ab)
+		twinA, twinB = ab[0], ab[1]
+		names[twinB] = names[twinA]
+		tags["same-named-pkgs"] = true
+	}
+	// dropTwin removes the second twin from an import list that has both.
+	dropTwin := func(l []int) []int {
+		hasA := false
+		for _, j := range l {
+			hasA = hasA || j == twinA
+		}
+		if !hasA || twinA < 0 {
+			return l
+		}
+		var res []int
+		for _, j := range l {
+			if j != twinB {
+				res = append(res, j)
+			}
+		}
+		return res
+	}
+
 	pkgs := make([]gpkg, npk)
 	var files []File
 	for i := range pkgs {
 		p := &pkgs[i]
 		p.name = names[i]
+		p.path = p.name
+		if i == twinA {
+			p.path = "da/" + p.name
+		} else if i == twinB {
+			p.path = "db/" + p.name
+		}
 		p.fn = "Fn"
 		prefix := ""
 		if !collide {
@@ -344,6 +380,17 @@ func drawMultiProgram(t *rapid.T) (string, []File, []string) {
 				}
 			}
 		}
+		p.imports = dropTwin(p.imports)
+		if i == twinB {
+			// A package does not import its own namesake.
+			var l []int
+			for _, j := range p.imports {
+				if j != twinA {
+					l = append(l, j)
+				}
+			}
+			p.imports = l
+		}
 		if len(p.imports) > 0 {
 			tags["pkg-imports-pkg"] = true
 		}
@@ -354,7 +401,7 @@ func drawMultiProgram(t *rapid.T) (string, []File, []string) {
 			order := rapid.Permutation(p.imports).Draw(t, "deporder")
 			hdr.WriteString("import (\n")
 			for _, j := range order {
-				fmt.Fprintf(&hdr, "\t%q\n", pkgs[j].name)
+				fmt.Fprintf(&hdr, "\t%q\n", pkgs[j].path)
 			}
 			hdr.WriteString(")\n\n")
 		}
@@ -462,10 +509,10 @@ func drawMultiProgram(t *rapid.T) (string, []File, []string) {
 		if rapid.IntRange(0, 2).Draw(t, "split") == 0 {
 			tags["multi-file-pkg"] = true
 			files = append(files,
-				File{Path: p.name + "/defs.mpcl", Text: "package " + p.name + "\n\n" + body.String()},
-				File{Path: p.name + "/code.mpcl", Text: hdr.String() + vars.String() + "\n" + fn.String()})
+				File{Path: p.path + "/defs.mpcl", Text: "package " + p.name + "\n\n" + body.String()},
+				File{Path: p.path + "/code.mpcl", Text: hdr.String() + vars.String() + "\n" + fn.String()})
 		} else {
-			files = append(files, File{Path: p.name + "/" + p.name + ".mpcl",
+			files = append(files, File{Path: p.path + "/" + p.name + ".mpcl",
 				Text: hdr.String() + body.String() + vars.String() + "\n" + fn.String()})
 		}
 	}
@@ -476,13 +523,13 @@ func drawMultiProgram(t *rapid.T) (string, []File, []string) {
 	if nimp == 1 && rapid.IntRange(0, 3).Draw(t, "single-import") > 0 {
 		nimp = 2
 	}
-	order = order[:nimp]
+	order = dropTwin(order[:nimp])
 	var sb strings.Builder
 	sb.WriteString("package main\n\nimport (\n")
 	g := &pgen{t: t, ty: ty, reads: []string{"a", "b"}}
 	for _, j := range order {
 		// (An import alias must equal the package name, so none is used.)
-		fmt.Fprintf(&sb, "\t%q\n", pkgs[j].name)
+		fmt.Fprintf(&sb, "\t%q\n", pkgs[j].path)
 		g.calls = append(g.calls, pkgs[j].name+"."+pkgs[j].fn+"(%s)")
 	}
 	sb.WriteString(")\n\n")
